@@ -109,7 +109,7 @@ def materialise(eng, st, v):
     if isinstance(v, Row):
         return alloc(st, 1, define1(st, v.esort, v.fn), (v.n,), v.esort, {'identity': True} if getattr(v, 'identity', False) else None)
     if isinstance(v, Mat):
-        return alloc(st, 2, define2(st, v.esort, v.fn), v.shape, v.esort)
+        return alloc(st, 2, define2(st, v.esort, v.fn), v.shape, v.esort, {'stack2': v.stack2} if getattr(v, 'stack2', None) is not None else None)
     raise OutOfSubset('materialise %r' % (v,))
 
 
@@ -237,6 +237,8 @@ def getitem(eng, st, base, sl):
         k = eng.ev(sl, st)
         if isinstance(k, int):
             return base[k]
+        if base and all(is_z3(e_) or isinstance(e_, (int, float)) for e_ in base) and not isinstance(sl, ast.Slice):
+            return as_row(eng, st, base).fn(to_z3(k, INT))        # a short literal list of scalars read at a symbolic position
         raise OutOfSubset('tuple index')
     nd = ndim_of(eng, st, base)
     line = getattr(sl, 'lineno', 0)
@@ -329,6 +331,19 @@ def getitem(eng, st, base, sl):
         if k0[0] == 'int' and k1[0] == 'fancy':
             f = k1[1]
             return Row(f.n, lambda q, m=m, f=f, x=k0[1]: m.fn(x, f.fn(q)), m.esort)
+        if k0[0] == 'int' and k1[0] == 'mask':
+            # M[x, mask]: the entries of row x where the mask holds; only its size and its minimum are modelled
+            mk = k1[1]
+            ref_ = materialise(eng, st, Row(mk.n, lambda q, mk=mk: truth(mk.fn(q)), BOOL))
+            cnt_ = core.cntb(eng.pure(st.heap[ref_.oid].term), to_z3(mk.n, INT))
+            # what is used of the count: it is >= 0, it is 0 exactly when the mask holds nowhere (Lean: card_eq_zero; witness Skolemised)
+            q_ = z3.Int('q!cm')
+            w0 = fresh('maskwit', INT)
+            st.pc.append(z3.And(cnt_ >= 0, z3.Implies(cnt_ > 0, z3.And(w0 >= 0, w0 < to_z3(mk.n, INT), truth(mk.fn(w0)))),
+                                z3.Implies(cnt_ == 0, z3.ForAll([q_], z3.Implies(z3.And(q_ >= 0, q_ < to_z3(mk.n, INT)), z3.Not(truth(mk.fn(q_))))))))
+            out = Row(cnt_, lambda q: (_ for _ in ()).throw(OutOfSubset('elementwise use of a mask selection')), m.esort)
+            out.masksel = (Row(m.shape[1], lambda y, m=m, x=k0[1]: m.fn(x, y), m.esort), mk)
+            return out
         if k0[0] == 'all' and k1[0] == 'fancy':
             f = k1[1]
             return Mat((m.shape[0], f.n), lambda x, y, m=m, f=f: m.fn(x, f.fn(y)), m.esort)
@@ -515,6 +530,21 @@ def setitem(eng, st, base, sl, val, node):
             return z3.Exists([t], z3.And(t >= 0, t < to_z3(sel.n, INT), to_z3(sel.fn(t), INT) == ix))
         inb = z3.And(x >= 0, x < to_z3(o.shape[0], INT), y >= 0, y < to_z3(o.shape[1], INT))
         o.term = define2(st, o.esort, lambda x, y: z3.If(z3.And(x >= 0, x < to_z3(o.shape[0], INT), y >= 0, y < to_z3(o.shape[1], INT), hit(x if rowsel else y)), v, z3.Select(z3.Select(old, x), y)))
+        return
+    if k0[0] == 'int' and k1[0] == 'fancy' and isinstance(val, (Ref, Row)):
+        # M[x, W] = d with W the result of a 1-D np.where(cond) (pairwise distinct positions) and d of the same length:
+        # entry y of row x becomes d[position of y in W] where cond(y) holds
+        wv = eng.ev(elts[1], st)
+        meta = st.heap[wv.oid].meta if isinstance(wv, Ref) else {}
+        if meta.get('where_cond1') is None:
+            raise OutOfSubset('row store through an index array that is not the result of np.where')
+        cond, widx = meta['where_cond1'], meta['where_idx']
+        dv = as_row(eng, st, val)
+        bounds(eng, st, k0[1], o.shape[0], 'storerow:%s' % ast.unparse(node)[:24])
+        x0 = k0[1]
+        n1 = to_z3(o.shape[1], INT)
+        newrow = define1(st, o.esort, lambda yy: z3.If(z3.And(yy >= 0, yy < n1, truth(cond(yy))), to_z3(dv.fn(widx(yy)), o.esort), z3.Select(z3.Select(old, x0), yy)))
+        o.term = z3.Store(old, x0, newrow)
         return
     if k0[0] == 'fancy' and k1[0] == 'fancy' and not isinstance(val, (Ref, Row, Mat)):
         # W[rowsA, rowsB] = scalar: numpy pairs the two index arrays element by element
@@ -780,6 +810,16 @@ def np_delete(eng, st, args, kw, node):
     return np_where(eng, st, [neg], {}, node)[0]
 
 
+def np_isinf(eng, st, args, kw, node):
+    v = args[0]
+    f = lambda t: z3.Or(to_z3(t, REAL) == z3.Real('INF'), to_z3(t, REAL) == -z3.Real('INF'))
+    if isinstance(v, (Ref, Row, Mat)):
+        r = elementwise(eng, st, f, v)
+        r.esort = BOOL
+        return r
+    return f(v)
+
+
 def np_minimum(eng, st, args, kw, node):
     def f(a, b):
         x, y = num2(to_z3(a), to_z3(b))
@@ -843,6 +883,12 @@ def np_zeros(eng, st, args, kw, node):
 
 def np_ones(eng, st, args, kw, node):
     sh = args[0]
+    dt = kw.get('dtype')
+    if isinstance(dt, Opaque) and dt.kind == 'builtin' and dt.name == 'bool':
+        n_ = sh[0] if isinstance(sh, (tuple, list)) else sh
+        if isinstance(sh, (tuple, list)) and len(sh) != 1:
+            raise OutOfSubset('np.ones(dtype=bool) of rank 2')
+        return alloc(st, 1, z3.K(INT, z3.BoolVal(True)), (n_,), BOOL)
     one = z3.RealVal(1)
     if isinstance(sh, (tuple, list)) and len(sh) == 2:
         return alloc(st, 2, z3.K(INT, z3.K(INT, one)), (sh[0], sh[1]), REAL)
@@ -1046,6 +1092,10 @@ def np_argmax(eng, st, args, kw, node):
 
 def np_argmin(eng, st, args, kw, node):
     v = args[0]
+    st2 = getattr(v, 'stack2', None) if isinstance(v, Mat) else (st.heap[v.oid].meta.get('stack2') if isinstance(v, Ref) else None)
+    if st2 is not None and kw.get('axis') == 0:
+        r1, r2 = st2
+        return Row(r1.n, lambda q, r1=r1, r2=r2: z3.If(to_z3(r1.fn(q), REAL) <= to_z3(r2.fn(q), REAL), z3.IntVal(0), z3.IntVal(1)), INT)
     r = as_row(eng, st, v)
     q = z3.Int('q!an')
     n = to_z3(r.n, INT)
@@ -1058,6 +1108,20 @@ def np_argmin(eng, st, args, kw, node):
 
 def np_min(eng, st, args, kw, node):
     v = args[0]
+    if isinstance(v, Row) and getattr(v, 'masksel', None) is not None and not kw and len(args) == 1:
+        r, mk = v.masksel
+        mn = fresh('minsel', r.esort)
+        q = z3.Int('q!ms')
+        n = to_z3(r.n, INT)
+        w = fresh('argminsel', INT)
+        st.pc.append(z3.ForAll([q], z3.Implies(z3.And(q >= 0, q < n, truth(mk.fn(q))), to_z3(r.fn(q)) >= mn)))
+        st.pc.append(z3.Implies(to_z3(v.n, INT) > 0, z3.And(w >= 0, w < n, truth(mk.fn(w)), to_z3(r.fn(w)) == mn)))
+        st.ghost['_masksel_argmin'] = w
+        return mn
+    st2 = getattr(v, 'stack2', None) if isinstance(v, Mat) else (st.heap[v.oid].meta.get('stack2') if isinstance(v, Ref) else None)
+    if st2 is not None and kw.get('axis') == 0:
+        r1, r2 = st2
+        return Row(r1.n, lambda q, r1=r1, r2=r2: z3.If(to_z3(r1.fn(q), REAL) <= to_z3(r2.fn(q), REAL), to_z3(r1.fn(q), REAL), to_z3(r2.fn(q), REAL)), REAL)
     if isinstance(v, (tuple, list)) and not isinstance(v, Opaque):
         e = to_z3(v[0])
         for t in v[1:]:
@@ -1218,6 +1282,11 @@ def np_array(eng, st, args, kw, node):
             r.esort = INT
             return materialise(eng, st, r)
         raise OutOfSubset('np.array conversion %s -> %s' % (o.esort, want))
+    if isinstance(v, (tuple, list)) and not isinstance(v, Opaque) and len(v) == 2 and all(isinstance(e, (Row, Ref)) and ndim_of(eng, st, e) == 1 for e in v) and dt is None:
+        r1, r2 = as_row(eng, st, v[0]), as_row(eng, st, v[1])
+        out = Mat((2, r1.n), lambda x, y, r1=r1, r2=r2: z3.If(x == 0, to_z3(r1.fn(y), REAL), to_z3(r2.fn(y), REAL)), REAL)
+        out.stack2 = (r1, r2)
+        return out
     if isinstance(v, SList):
         # np.array(list of equal-length 1-D arrays): row k of the result is element k; kept as a list of rows (read by `a[k]` only)
         if not all(isinstance(e, Ref) and st.heap[e.oid].ndim == 1 for _, e in v.slots):
@@ -1232,6 +1301,8 @@ def np_array(eng, st, args, kw, node):
 def method(eng, st, obj, name, args, kw, node):
     if isinstance(obj, Opaque) and obj.kind == 'rng':
         return rng_method(eng, st, obj, name, args, kw, node)
+    if name == 'flatten' and ndim_of(eng, st, obj) == 1:
+        return as_row(eng, st, obj)
     if name == 'copy':
         v = obj if isinstance(obj, Ref) else materialise(eng, st, obj)
         o = st.heap[v.oid]
